@@ -223,5 +223,11 @@ func (state *RuntimeState) getStorageDataFromStorageStringDataJWT(serializedToke
 		err = errors.New("invalid JWT values")
 		return rvalue, err
 	}
+	// The expiration is part of the signed data: do not rely only on the
+	// (unsigned) database column.
+	if inboundJWT.Expiration < time.Now().Unix() {
+		err = errors.New("expired storage data")
+		return rvalue, err
+	}
 	return inboundJWT, nil
 }
